@@ -170,7 +170,8 @@ def check_field_ops(ctx, P, backend, cfg):
 
 
 def one_limbpoly(ctx, P, fn, spec, what, W, inl, cfg, params=None, args=None, tag="", inline_extra=None):
-    inline = (lambda n: inl(n) or inline_extra(n)) if inline_extra else inl
+    auto = ssa.auto_inline(P, fn)
+    inline = (lambda n: inl(n) or inline_extra(n) or auto(n)) if inline_extra else (lambda n: inl(n) or auto(n))
     try:
         r = ssa.Eval(P, fn, inline=inline, params=params or {}, args=args, maxdepth=3).run()
     except RecursionError:
